@@ -34,6 +34,11 @@ def instances(tier, rng):
                 e = list(rng.choice(u["edges"]))
                 extra.append({"escale": [[e, 1, 2]]})
                 extra.append({"escale": [[e, 0, 1]]})
+                v = rng.choice(u["nodes"])
+                extra.append({"mode": "node", "escale": [[v, 0, 1]]})       # node keys: scale 0 on a node == node ignored
+                extra.append({"mode": "node", "escale": [[v, 1, 2]]})
+                if len(u["nodes"]) >= 3:
+                    extra.append({"mode": "node", "ign": [v]})
                 extra.append({"starts": [rng.choice(u["nodes"])]})
                 extra.append({"ends": [rng.choice(u["nodes"])]})
                 extra.append({"sws": sorted(set(u["pweights"])) + [1]})
